@@ -512,9 +512,15 @@ class Light(Device):
                 if all(
                     c.brightness.initialized for c in self._iter_individual_colors()
                 ):
-                    self.red.brightness.set(color[0])
-                    self.green.brightness.set(color[1])
-                    self.blue.brightness.set(color[2])
+                    red, green, blue = color[0], color[1], color[2]
+                    # nothing shall be sent if one of the values is invalid
+                    self.red.brightness.to_knx(red)
+                    self.green.brightness.to_knx(green)
+                    self.blue.brightness.to_knx(blue)
+                    self.white.brightness.to_knx(white)
+                    self.red.brightness.set(red)
+                    self.green.brightness.set(green)
+                    self.blue.brightness.set(blue)
                     self.white.brightness.set(white)
                     return
             logger.warning("RGBW not supported for device %s", self.get_name())
@@ -526,9 +532,14 @@ class Light(Device):
                 if all(
                     c.brightness.initialized for c in (self.red, self.green, self.blue)
                 ):
-                    self.red.brightness.set(color[0])
-                    self.green.brightness.set(color[1])
-                    self.blue.brightness.set(color[2])
+                    red, green, blue = color[0], color[1], color[2]
+                    # nothing shall be sent if one of the values is invalid
+                    self.red.brightness.to_knx(red)
+                    self.green.brightness.to_knx(green)
+                    self.blue.brightness.to_knx(blue)
+                    self.red.brightness.set(red)
+                    self.green.brightness.set(green)
+                    self.blue.brightness.set(blue)
                     return
             logger.warning("Colors not supported for device %s", self.get_name())
 
@@ -551,11 +562,15 @@ class Light(Device):
         if not self.supports_hs_color:
             logger.warning("HS-color not supported for device %s", self.get_name())
             return
+        hue, saturation = hs_color[0], hs_color[1]
+        # nothing shall be sent if one of the values is invalid
+        self.hue.to_knx(hue)
+        self.saturation.to_knx(saturation)
         value_sent = False
-        if (hue := hs_color[0]) != self.hue.value:
+        if hue != self.hue.value:
             self.hue.set(hue)
             value_sent = True
-        if (saturation := hs_color[1]) != self.saturation.value:
+        if saturation != self.saturation.value:
             self.saturation.set(saturation)
             value_sent = True
         if not value_sent:
